@@ -2,7 +2,7 @@
 use super::c14::{model_path, MODELS};
 use super::{MonOut, Tier};
 use crate::appgen::{fresh_dir, remove_dir, silence_stderr};
-use crate::gen::net::hav_m;
+
 use crate::hooks::{catch, panic_sig};
 use crate::oracle::units as U;
 use crate::oracle::units::rel_close;
